@@ -30,6 +30,14 @@ def common_labels(spec, obs):
         labs.append("reused_instance")
     if t.get("naming"):
         labs.append("names:" + t["naming"])
+    if spec.get("configure"):
+        labs.append("configured-by:set_config_parameters(" + spec["configure"] + ")")
+    if t.get("weights") is not None and t.get("encoding") != "multi_objective":
+        labs.append("weighted-objectives-over:" + t.get("encoding", "?"))
+    if spec.get("debug"):
+        labs.append("debug")
+    if t.get("seed") is None:
+        labs.append("unseeded")
     if t["objective"].get("returns"):
         labs.append("objective-returns:" + t["objective"]["returns"])
     if obs.outcome == "exc":
